@@ -54,4 +54,400 @@ theorem dlgShares_zero : ∀ (ds : List Deleg) (m : RMap) (d : Deleg), d ∈ ds 
       apply key
       simp [rmGet_rmSet_same]
 
+/-! ## shares left in the map -/
+
+def totalPos : RMap → Int
+  | [] => 0
+  | (_, x) :: m => max x 0 + totalPos m
+
+theorem totalPos_nonneg : ∀ m : RMap, 0 ≤ totalPos m
+  | [] => by simp [totalPos]
+  | (_, x) :: m => by have := totalPos_nonneg m; simp only [totalPos]; omega
+
+theorem totalPos_rmSet_le : ∀ (m : RMap) (k : Addr) (x : Int), totalPos (rmSet m k x) ≤ totalPos m + max x 0
+  | [], k, x => by simp [rmSet, totalPos]
+  | (k', v') :: m, k, x => by
+    unfold rmSet
+    split
+    · simp only [totalPos]; omega
+    · have := totalPos_rmSet_le m k x
+      simp only [totalPos]; omega
+
+theorem totalPos_rmSet_of_get : ∀ (m : RMap) (k : Addr) (x x' : Int), rmGet m k = some x →
+    totalPos (rmSet m k x') = totalPos m - max x 0 + max x' 0
+  | [], k, x, x', h => by simp [rmGet] at h
+  | (k', v') :: m, k, x, x', h => by
+    unfold rmGet at h
+    unfold rmSet
+    split
+    · rename_i hk
+      simp only [hk, if_true] at h
+      cases h
+      simp only [totalPos]; omega
+    · rename_i hk
+      simp only [hk, if_false] at h
+      have := totalPos_rmSet_of_get m k x x' h
+      simp only [totalPos]; omega
+
+def look (m : RMap) (k : Addr) : Int :=
+  match rmGet m k with
+  | some x => max x 0
+  | none => 0
+
+def lookSum (m : RMap) : List Addr → Int
+  | [] => 0
+  | k :: ks => look m k + lookSum m ks
+
+theorem look_nonneg (m : RMap) (k : Addr) : 0 ≤ look m k := by
+  unfold look; split <;> omega
+
+theorem lookSum_nonneg (m : RMap) : ∀ ks, 0 ≤ lookSum m ks
+  | [] => by simp [lookSum]
+  | k :: ks => by have := lookSum_nonneg m ks; have := look_nonneg m k; simp only [lookSum]; omega
+
+theorem look_cons (k' : Addr) (x : Int) (m : RMap) (k : Addr) :
+    look ((k', x) :: m) k = if k' = k then max x 0 else look m k := by
+  unfold look
+  simp only [rmGet]
+  by_cases e : k' = k <;> simp [e]
+
+theorem lookSum_cons_notin (k' : Addr) (x : Int) (m : RMap) : ∀ ks : List Addr, k' ∉ ks → lookSum ((k', x) :: m) ks = lookSum m ks
+  | [], _ => rfl
+  | k :: ks, h => by
+    have h1 : k' ≠ k := fun e => h (by rw [e]; exact List.mem_cons_self ..)
+    have h2 : k' ∉ ks := fun e => h (List.mem_cons_of_mem _ e)
+    simp only [lookSum, look_cons, h1, if_false, lookSum_cons_notin k' x m ks h2]
+
+theorem lookSum_cons_le (k' : Addr) (x : Int) (m : RMap) : ∀ ks : List Addr, ks.Nodup →
+    lookSum ((k', x) :: m) ks ≤ max x 0 + lookSum m (ks.filter (fun k => decide (k ≠ k')))
+  | [], _ => by simp [lookSum]; omega
+  | k :: ks, hn => by
+    obtain ⟨hk, hn'⟩ := List.nodup_cons.mp hn
+    by_cases e : k' = k
+    · subst e
+      have hf : (ks.filter (fun k => decide (k ≠ k'))) = ks := by
+        apply List.filter_eq_self.mpr
+        intro a ha
+        simp only [ne_eq, decide_not, Bool.not_eq_eq_eq_not, Bool.not_true, decide_eq_false_iff_not]
+        intro e; exact hk (e ▸ ha)
+      simp only [lookSum, look_cons, if_true, List.filter_cons, ne_eq, not_true, decide_false, Bool.false_eq_true, if_false]
+      rw [lookSum_cons_notin k' x m ks hk]
+      simp only [ne_eq] at hf
+      rw [hf]; omega
+    · have ih := lookSum_cons_le k' x m ks hn'
+      have e' : k ≠ k' := fun h => e h.symm
+      simp only [lookSum, look_cons, e, if_false, List.filter_cons, ne_eq, e', not_false_eq_true, decide_true, if_true]
+      simp only [ne_eq] at ih
+      omega
+
+theorem lookSum_le_totalPos : ∀ (m : RMap) (ks : List Addr), ks.Nodup → lookSum m ks ≤ totalPos m
+  | [], ks, _ => by
+    have : ∀ ks : List Addr, lookSum [] ks = 0 := by
+      intro ks; induction ks with
+      | nil => rfl
+      | cons k ks ih => simp [lookSum, look, rmGet, ih]
+    simp [this, totalPos]
+  | (k', x) :: m, ks, hn => by
+    have h1 := lookSum_cons_le k' x m ks hn
+    have h2 := lookSum_le_totalPos m (ks.filter (fun k => decide (k ≠ k'))) (hn.filter _)
+    simp only [totalPos]; omega
+
+/-! ## first loop -/
+
+def Phi (a : Acc) : Int := max a.self 0 + totalPos a.dlg
+
+theorem minTake_le (s t : Int) : minTake s t ≤ t := by unfold minTake; split <;> omega
+theorem minTake_le_src (s t : Int) : minTake s t ≤ s := by unfold minTake; split <;> omega
+
+theorem wamount_nonneg (va : Addr) (r : WRec) (a : Acc) : 0 ≤ wamount va r a := by
+  unfold wamount
+  split; · omega
+  split; · omega
+  split; · omega
+  split <;> omega
+
+/-- a positive take never exceeds the share it draws on, and the potential drops by exactly the take -/
+theorem wtake_Phi (va : Addr) (r : WRec) (a : Acc) (h : 0 < wamount va r a) :
+    Phi (wtake r a (wamount va r a)) = Phi a - wamount va r a ∧ wamount va r a ≤ r.final := by
+  unfold wamount at h ⊢
+  split at h; · omega
+  rename_i hv
+  simp only [hv, if_false]
+  cases hr : wrest a r with
+  | none => simp [hr] at h
+  | some rest =>
+    simp only [hr] at h ⊢
+    split at h; · omega
+    rename_i hpos
+    simp only [hpos, if_false] at h ⊢
+    split at h
+    · rename_i hf
+      simp only [hf, if_true]
+      have hle := minTake_le r.final rest
+      refine ⟨?_, minTake_le_src _ _⟩
+      unfold wrest at hr
+      unfold Phi wtake
+      split at hr
+      · rename_i hd
+        simp only [hd, ne_eq, not_false_eq_true, if_true, hr]
+        rw [totalPos_rmSet_of_get _ _ rest _ hr]
+        omega
+      · rename_i hd
+        cases hr
+        simp only [hd, if_false]
+        omega
+    · omega
+
+theorem wloop_inv (va : Addr) : ∀ (q : List WRec) (a : Acc), Phi a ≤ a.pen →
+    Phi (wloop va q a).2 ≤ (wloop va q a).2.pen
+  | [], a, h => by simpa [wloop] using h
+  | r :: rs, a, h => by
+    unfold wloop
+    split
+    · exact h
+    · split
+      · rename_i hp
+        obtain ⟨h1, _⟩ := wtake_Phi va r a hp
+        apply wloop_inv va rs
+        have e1 : (wtake r a (wamount va r a)).pen = a.pen - wamount va r a := rfl
+        rw [h1, e1]; omega
+      · exact wloop_inv va rs a h
+
+/-- conservation in the first loop: what leaves the records is what is added to the total and taken off the amount -/
+theorem wloop_cons (va : Addr) : ∀ (q : List WRec) (a : Acc),
+    (wloop va q a).2.pen + (wloop va q a).2.total = a.pen + a.total ∧
+    (wloop va q a).2.total - a.total = sumFinal q - sumFinal (wloop va q a).1
+  | [], a => by simp [wloop]
+  | r :: rs, a => by
+    unfold wloop
+    split
+    · simp
+    · split
+      · obtain ⟨h1, h2⟩ := wloop_cons va rs (wtake r a (wamount va r a))
+        have e1 : (wtake r a (wamount va r a)).pen = a.pen - wamount va r a := rfl
+        have e2 : (wtake r a (wamount va r a)).total = a.total + wamount va r a := rfl
+        simp only [sumFinal]
+        constructor <;> omega
+      · obtain ⟨h1, h2⟩ := wloop_cons va rs a
+        simp only [sumFinal]
+        constructor <;> omega
+
+theorem wloop_total_mono (va : Addr) : ∀ (q : List WRec) (a : Acc), a.total ≤ (wloop va q a).2.total
+  | [], a => by simp [wloop]
+  | r :: rs, a => by
+    unfold wloop
+    split
+    · simp
+    · split
+      · rename_i hp
+        have := wloop_total_mono va rs (wtake r a (wamount va r a))
+        have e2 : (wtake r a (wamount va r a)).total = a.total + wamount va r a := rfl
+        simp only
+        omega
+      · exact wloop_total_mono va rs a
+
+/-! ## third loop -/
+
+theorem damount_le_look (dlg : RMap) (d : Deleg) : damount dlg d ≤ look dlg d.delegator ∧ 0 ≤ damount dlg d ∧ damount dlg d ≤ max d.token 0 := by
+  unfold damount look
+  cases h : rmGet dlg d.delegator with
+  | none => simp; omega
+  | some rest =>
+    simp only
+    have := minTake_le d.token rest
+    have := minTake_le_src d.token rest
+    split
+    · omega
+    · split <;> omega
+
+theorem dloop_inv (unit : Int) (dlg : RMap) : ∀ (ds : List Deleg) (c : DAcc),
+    lookSum dlg (ds.map (·.delegator)) ≤ c.pen → 0 ≤ (dloop unit dlg ds c).2.pen
+  | [], c, h => by simpa [dloop, lookSum] using h
+  | d :: ds, c, h => by
+    unfold dloop
+    simp only [List.map_cons, lookSum] at h
+    have hl := damount_le_look dlg d
+    have hs := lookSum_nonneg dlg (ds.map (·.delegator))
+    have hk := look_nonneg dlg d.delegator
+    split
+    · simp only; omega
+    · split
+      · simp only
+        apply dloop_inv unit dlg ds
+        simp only [updCounter]; omega
+      · simp only
+        apply dloop_inv unit dlg ds
+        omega
+
+/-- conservation in the third loop -/
+theorem dloop_cons (unit : Int) (dlg : RMap) : ∀ (ds : List Deleg) (c : DAcc),
+    (dloop unit dlg ds c).2.pen + (dloop unit dlg ds c).2.total = c.pen + c.total ∧
+    (dloop unit dlg ds c).2.total - c.total = c.vtoken - (dloop unit dlg ds c).2.vtoken ∧
+    (dloop unit dlg ds c).2.total - c.total = sumDelegToken ds - sumDelegToken (dloop unit dlg ds c).1
+  | [], c => by simp [dloop]
+  | d :: ds, c => by
+    unfold dloop
+    split
+    · simp
+    · split
+      · obtain ⟨h1, h2, h3⟩ := dloop_cons unit dlg ds (updCounter unit (damount dlg d) d.token d.stake c).2.2
+        have e0 : (updCounter unit (damount dlg d) d.token d.stake c).1 = d.token - damount dlg d := rfl
+        have e1 : (updCounter unit (damount dlg d) d.token d.stake c).2.2.pen = c.pen - damount dlg d := rfl
+        have e2 : (updCounter unit (damount dlg d) d.token d.stake c).2.2.total = c.total + damount dlg d := rfl
+        have e3 : (updCounter unit (damount dlg d) d.token d.stake c).2.2.vtoken = c.vtoken - damount dlg d := rfl
+        simp only
+        refine ⟨by omega, by omega, ?_⟩
+        by_cases he : (updCounter unit (damount dlg d) d.token d.stake c).2.1 = 0 ∧ (updCounter unit (damount dlg d) d.token d.stake c).1 = 0
+        · simp only [he, and_self, if_true, sumDelegToken]
+          have := he.2
+          omega
+        · simp only [he, if_false, sumDelegToken]
+          omega
+      · obtain ⟨h1, h2, h3⟩ := dloop_cons unit dlg ds c
+        simp only [sumDelegToken]
+        refine ⟨by omega, by omega, by omega⟩
+
+theorem dloop_total_mono (unit : Int) (dlg : RMap) : ∀ (ds : List Deleg) (c : DAcc), c.total ≤ (dloop unit dlg ds c).2.total
+  | [], c => by simp [dloop]
+  | d :: ds, c => by
+    unfold dloop
+    split
+    · simp
+    · split
+      · rename_i hp
+        have := dloop_total_mono unit dlg ds (updCounter unit (damount dlg d) d.token d.stake c).2.2
+        have e2 : (updCounter unit (damount dlg d) d.token d.stake c).2.2.total = c.total + damount dlg d := rfl
+        simp only
+        omega
+      · exact dloop_total_mono unit dlg ds c
+
+/-! ## the shares add up to the amount -/
+
+theorem obligation_bounds (v : Val) (amount : Int) (ha : 0 ≤ amount) : 0 ≤ obligationOf v amount ∧ obligationOf v amount ≤ amount := by
+  unfold obligationOf
+  split
+  · rename_i h
+    have h1 : 0 ≤ amount * (v.risk : Int) := Int.mul_nonneg ha (by omega)
+    have h2 : amount * (v.risk : Int) ≤ amount * 10000 := Int.mul_le_mul_of_nonneg_left (by omega) ha
+    constructor <;> omega
+  · omega
+
+theorem totalPos_dlgShares_le (per : Int) (hper : 0 ≤ per) : ∀ (ds : List Deleg) (m : RMap), (∀ d ∈ ds, 0 ≤ d.stake) →
+    totalPos (dlgShares per ds m) ≤ totalPos m + per * sumDelegStake ds
+  | [], m, _ => by simp [dlgShares, sumDelegStake]
+  | d :: ds, m, h => by
+    have hd : 0 ≤ d.stake := h d (List.mem_cons_self ..)
+    have ih := totalPos_dlgShares_le per hper ds (rmSet m d.delegator (per * d.stake)) (fun x hx => h x (List.mem_cons_of_mem _ hx))
+    have h1 := totalPos_rmSet_le m d.delegator (per * d.stake)
+    have h2 : 0 ≤ per * d.stake := Int.mul_nonneg hper hd
+    simp only [dlgShares, sumDelegStake, Int.mul_add]
+    omega
+
+theorem shares_le_amount (v : Val) (amount : Int) (ha : 0 ≤ amount) (hwf : ValWF v) :
+    Phi { pen := amount, total := 0, self := selfShare v amount, dlg := dlgShares (perOf v amount) v.delegs [] } ≤ amount := by
+  obtain ⟨ho1, ho2⟩ := obligation_bounds v amount ha
+  have hs := hwf.stake_pos
+  have hne : v.stake ≠ 0 := by omega
+  have hper : 0 ≤ perOf v amount := by
+    simp only [perOf, hne, if_false]
+    exact Int.tdiv_nonneg (by omega) (by omega)
+  have hrem : 0 ≤ remOf v amount := by
+    simp only [remOf, hne, if_false]
+    exact Int.tmod_nonneg _ (by omega)
+  have hid : v.stake * perOf v amount + remOf v amount = amount - obligationOf v amount := by
+    simp only [perOf, remOf, hne, if_false]
+    exact Int.mul_tdiv_add_tmod _ _
+  have hd := totalPos_dlgShares_le (perOf v amount) hper v.delegs [] (fun d hd => (hwf.deleg_nonneg d hd).1)
+  have hself : 0 ≤ perOf v amount * v.selfStake := Int.mul_nonneg hper hwf.self_nonneg
+  have hsum : perOf v amount * v.stake = perOf v amount * v.selfStake + perOf v amount * sumDelegStake v.delegs := by
+    rw [hwf.stake_sum, Int.mul_add]
+  have hcomm : v.stake * perOf v amount = perOf v amount * v.stake := Int.mul_comm _ _
+  simp only [Phi, selfShare, totalPos] at hd ⊢
+  omega
+
+/-! ## deposit phase and takePenalty -/
+
+theorem depositPhase_cons (unit : Int) (v : Val) (a : Acc) :
+    (depositPhase unit v a).2 - a.total = v.token - (depositPhase unit v a).1.token ∧
+    v.token - (depositPhase unit v a).1.token =
+      (v.selfToken - (depositPhase unit v a).1.selfToken) + (sumDelegToken v.delegs - sumDelegToken (depositPhase unit v a).1.delegs) := by
+  unfold depositPhase
+  split
+  · simp only
+    by_cases hsf : (if a.self > 0 then minTake v.selfToken a.self else 0) > 0
+    · simp only [hsf, if_true]
+      obtain ⟨h1, h2, h3⟩ := dloop_cons unit a.dlg v.delegs
+        (updCounter unit (if a.self > 0 then minTake v.selfToken a.self else 0) v.selfToken v.selfStake
+          { pen := a.pen, total := a.total, vtoken := v.token, vstake := v.stake }).2.2
+      simp only [updCounter] at h1 h2 h3 ⊢
+      constructor <;> omega
+    · simp only [hsf, if_false]
+      obtain ⟨h1, h2, h3⟩ := dloop_cons unit a.dlg v.delegs { pen := a.pen, total := a.total, vtoken := v.token, vstake := v.stake }
+      simp only at h1 h2 h3 ⊢
+      constructor <;> omega
+  · simp
+
+theorem depositPhase_le (unit : Int) (v : Val) (a : Acc) (hn : (v.delegs.map (·.delegator)).Nodup) (hPhi : Phi a ≤ a.pen) :
+    (depositPhase unit v a).2 ≤ a.pen + a.total ∧ a.total ≤ (depositPhase unit v a).2 := by
+  have hL := lookSum_le_totalPos a.dlg _ hn
+  have hT := totalPos_nonneg a.dlg
+  unfold Phi at hPhi
+  unfold depositPhase
+  split
+  · simp only
+    by_cases hsf : (if a.self > 0 then minTake v.selfToken a.self else 0) > 0
+    · simp only [hsf, if_true]
+      have hle : (if a.self > 0 then minTake v.selfToken a.self else 0) ≤ max a.self 0 := by
+        split
+        · have := minTake_le v.selfToken a.self; omega
+        · omega
+      have hinv := dloop_inv unit a.dlg v.delegs
+        (updCounter unit (if a.self > 0 then minTake v.selfToken a.self else 0) v.selfToken v.selfStake
+          { pen := a.pen, total := a.total, vtoken := v.token, vstake := v.stake }).2.2
+        (by simp only [updCounter]; omega)
+      obtain ⟨h1, h2, h3⟩ := dloop_cons unit a.dlg v.delegs
+        (updCounter unit (if a.self > 0 then minTake v.selfToken a.self else 0) v.selfToken v.selfStake
+          { pen := a.pen, total := a.total, vtoken := v.token, vstake := v.stake }).2.2
+      have hm := dloop_total_mono unit a.dlg v.delegs
+        (updCounter unit (if a.self > 0 then minTake v.selfToken a.self else 0) v.selfToken v.selfStake
+          { pen := a.pen, total := a.total, vtoken := v.token, vstake := v.stake }).2.2
+      simp only [updCounter] at h1 h2 h3 hinv hm ⊢
+      constructor <;> omega
+    · simp only [hsf, if_false]
+      have hinv := dloop_inv unit a.dlg v.delegs { pen := a.pen, total := a.total, vtoken := v.token, vstake := v.stake }
+        (by simp only; omega)
+      obtain ⟨h1, h2, h3⟩ := dloop_cons unit a.dlg v.delegs { pen := a.pen, total := a.total, vtoken := v.token, vstake := v.stake }
+      have hm := dloop_total_mono unit a.dlg v.delegs { pen := a.pen, total := a.total, vtoken := v.token, vstake := v.stake }
+      simp only at h1 h2 h3 hinv hm ⊢
+      constructor <;> omega
+  · simp only
+    constructor <;> omega
+
+/-- conservation (no hypotheses): the total equals what left the withdraw records plus what left the validator's
+Token; the Token decrease equals the decrease of SelfToken plus the decrease of the delegations' tokens -/
+theorem takePenalty_conservation (unit : Int) (q : List WRec) (v : Val) (amount : Int) :
+    (takePenalty unit q v amount).total = (sumFinal q - sumFinal (takePenalty unit q v amount).queue) + (v.token - (takePenalty unit q v amount).newVal.token) ∧
+    v.token - (takePenalty unit q v amount).newVal.token =
+      (v.selfToken - (takePenalty unit q v amount).newVal.selfToken) +
+      (sumDelegToken v.delegs - sumDelegToken (takePenalty unit q v amount).newVal.delegs) := by
+  unfold takePenalty
+  simp only
+  obtain ⟨w1, w2⟩ := wloop_cons v.addr q { pen := amount, total := 0, self := selfShare v amount, dlg := dlgShares (perOf v amount) v.delegs [] }
+  obtain ⟨d1, d2⟩ := depositPhase_cons unit v (wloop v.addr q { pen := amount, total := 0, self := selfShare v amount, dlg := dlgShares (perOf v amount) v.delegs [] }).2
+  simp only at w1 w2
+  constructor <;> omega
+
+/-- bound (well-formed record): never more than asked, never negative -/
+theorem takePenalty_le (unit : Int) (q : List WRec) (v : Val) (amount : Int) (ha : 0 ≤ amount) (hwf : ValWF v) :
+    0 ≤ (takePenalty unit q v amount).total ∧ (takePenalty unit q v amount).total ≤ amount := by
+  unfold takePenalty
+  simp only
+  have h0 := shares_le_amount v amount ha hwf
+  have hinv := wloop_inv v.addr q _ h0
+  obtain ⟨w1, _⟩ := wloop_cons v.addr q { pen := amount, total := 0, self := selfShare v amount, dlg := dlgShares (perOf v amount) v.delegs [] }
+  have wm := wloop_total_mono v.addr q { pen := amount, total := 0, self := selfShare v amount, dlg := dlgShares (perOf v amount) v.delegs [] }
+  obtain ⟨d1, d2⟩ := depositPhase_le unit v _ hwf.nodup hinv
+  simp only at w1 wm
+  constructor <;> omega
+
 end YouVerif.C05
